@@ -2,7 +2,7 @@
    harness observes of the Go run. *)
 From Coq Require Import List ZArith Bool.
 From Verif Require Spec.Visited Spec.Rules Spec.Walk.
-From Verif Require Import Base.Sx Base.GoVal Base.F64 Schema.Ast Schema.Pipeline Schema.Simple Schema.Draft4 Schema.Classes Schema.Helpers Schema.Post Schema.AgreementDec.
+From Verif Require Import Base.Sx Base.GoVal Base.F64 Schema.Ast Schema.Pipeline Schema.Simple Schema.Draft4 Schema.Classes Schema.Helpers Schema.Post Schema.AgreementDec Schema.PipelineTermDec.
 Import ListNotations.
 Open Scope Z_scope.
 
@@ -80,7 +80,12 @@ Definition run_schema (s : sx) : sx :=
                (* the largest level the fuel of the case allows (AgreementRef.agreement_with_references): n + K < fuel, n * (K + 1) <= fuel *)
                let n := Nat.min (fuel - K - 1) (Nat.div fuel (S K)) in
                ofBool ((cleanr_b f_finite false orc dfs K n sch && jd_b f_finite false (S (goval_depth data)) data) ||
-                       (cleanr_b f_finite true orc dfs K n sch && jd_b f_finite true (S (goval_depth data)) data))) ]
+                       (cleanr_b f_finite true orc dfs K n sch && jd_b f_finite true (S (goval_depth data)) data)));
+              (* is the case inside the class on which a verdict is proved to be returned with this fuel
+                 (Schema/PipelineTermRec.v, decided by PipelineTermDec.v)? *)
+              (let K := Nat.min fuel 48 in
+               let R := fold_right Nat.max O (map (max_rank dfs K fuel) (roots dfs sch)) in
+               ofBool (guarded_b dfs K R fuel sch && (goval_depth data * S R + urank dfs K sch <? fuel)%nat)) ]
       | _, _, _, _, _, _ => sx_err
       end
   | _ => sx_err
